@@ -132,6 +132,16 @@ pub fn inputs(seed: u64, tier: Tier) -> Vec<In> {
             }
         }
     }
+    // XZ blocks whose declared compressed size (and the index, consistently) covers spare bytes after the LZMA2 end byte:
+    // whether the spare bytes are noticed must not depend on how much of the block a refill happens to expose
+    for (extra, val) in [(1usize, 0u8), (4, 0), (4, 0x5A), (7, 1), (13, 0)] {
+        for check in [0u8, 4] {
+            let (mut p, plain) = payload(1, 0, extra + check as usize);
+            p.extend(std::iter::repeat(val).take(extra));
+            let f = XzFile { check_id: check, blocks: vec![Block { payload: p, plain, with_csize: true, with_usize: check == 4, ..Default::default() }], ..Default::default() };
+            all.push(In { label: format!("xz block declaring {} spare byte(s) {:#04x} after the LZMA2 end byte (sizes and index consistent), check {}", extra, val, check), fmt: Fmt::Xz, opts: Opts::default(), bytes: xz::build(&f).0 });
+        }
+    }
     for v in valid {
         let n = v.bytes.len();
         let npos = tier.pick(5usize, 12usize);
